@@ -284,7 +284,7 @@ CHECKS["C16"] = {
           "undocumented status or non-termination is a violation with the case as replay.",
   "design_ref": "DESIGN.md section 4, C16",
   "technique": "Lean 4 proof (totality with explicit Panic outcomes, model follows the source through generated guard flags) + clippy site inventory x committed classification + differential panic/no-panic correspondence + CLI oracle",
-  "note": TB + "40 inventoried sites are reviewed-as-unclassified (counted in the evidence); allocation failure, stack depth, panics inside "
+  "note": TB + "38 inventoried sites are reviewed-as-unclassified (counted in the evidence; one of them, compound_matcher.rs untouched_text_survives_rejoin, is a latent slice that panics in-process on identifiers the extractor does not produce and is watched by the panic_compound op); allocation failure, stack depth, panics inside "
           "dependencies and quadratic cost on very long lines are outside the theorems (the oracle still observes them; an invocation "
           "that exhausts 40 s / 4 GiB is retried on a cut-down copy to separate cost from non-termination); Unicode lower-casing is an "
           "arbitrary function in the model; the regex contract (a match is an occurrence of one alternative) and two facts about "
@@ -417,4 +417,4 @@ CHECKS["C15"] = {
 }
 
 _W = "check built and passing before the latest repo fix commits; temporarily withdrawn while its Lean model is updated to the repaired code"
-PENDING.update({"C04": _W, "C07": _W, "C11": _W, "C13": _W, "C14": _W, "C19": _W})
+PENDING.update({"C04": _W, "C11": _W, "C13": _W, "C14": _W})
